@@ -10,6 +10,7 @@ mod cli;
 mod ledger;
 mod price;
 mod c09;
+mod c10;
 
 pub struct Opts {
     pub seed: u64,
@@ -72,6 +73,7 @@ fn main() {
         "c02" => c02::run(&o, "C02"),
         "c03" => c02::run(&o, "C03"),
         "c09" => c09::run(&o),
+        "c10" => c10::run(&o),
         _ => {
             eprintln!("unknown property {}", prop);
             std::process::exit(2);
